@@ -93,20 +93,20 @@ type anyStore interface {
 }
 
 type run struct {
-	c     *Case
-	o     *vkit.Outcome
-	ctx   context.Context
-	a, b  anyStore
-	srv   *storekit.DSServer
-	dir   string
-	log   []entry
-	log2  []entry
-	bind  map[eventbus.Offset]int
-	nexts []eventbus.Offset
-	evs   []eventbus.Offset
-	apps  []eventbus.Offset
-	saved map[string]eventbus.Offset
-	lastApp eventbus.Offset
+	c                                           *Case
+	o                                           *vkit.Outcome
+	ctx                                         context.Context
+	a, b                                        anyStore
+	srv                                         *storekit.DSServer
+	dir                                         string
+	log                                         []entry
+	log2                                        []entry
+	bind                                        map[eventbus.Offset]int
+	nexts                                       []eventbus.Offset
+	evs                                         []eventbus.Offset
+	apps                                        []eventbus.Offset
+	saved                                       map[string]eventbus.Offset
+	lastApp                                     eventbus.Offset
 	reopened, chainedLimited, appendAfterReopen bool
 }
 
